@@ -3,6 +3,9 @@
 export GOFLAGS=-mod=mod GOPROXY=off GOSUMDB=off GOTOOLCHAIN=local
 rc=0
 for m in . attachment protocol service shared terminal; do
-  ( cd /repo/$m && go test -mod=mod -vet=off -count=1 -timeout 25m ./... ) || rc=1
+  out=$( cd /repo/$m && go test -mod=mod -vet=off -count=1 -timeout 25m ./... 2>&1 ); r=$?
+  echo "$out"
+  # the root module holds no packages: `go test ./...` exits 1 with "no packages to test"
+  if [ $r -ne 0 ] && ! echo "$out" | grep -q "no packages to test"; then rc=1; fi
 done
 exit $rc
